@@ -1079,8 +1079,13 @@ bool evaluate_impl(const void *context, const GraphView &graph,
   // per-cycle setup (next_scheduled accumulation / push-source pass). A
   // completed cycle resets the cursor to 0. (A cursor of 0 or the initial
   // invalid sentinel means "fresh".)
+  // A cycle that ended with an exception (caught above a nested graph by
+  // try_except / map_) also leaves the cursor on the failing node, but it is
+  // not a pause: the next evaluate must start a fresh cycle, otherwise the
+  // nodes ranked before the failing one are skipped.
   const bool resuming =
-      state.evaluation_cursor != 0 && state.evaluation_cursor != invalid_cursor;
+      !state.evaluation_failed && state.evaluation_cursor != 0 &&
+      state.evaluation_cursor != invalid_cursor;
 
   state.evaluation_time = evaluation_time;
   state.evaluation_failed = false;
